@@ -118,8 +118,10 @@ class ChunkIO(RuleBasedStateMachine):
             if dtype == "uint8" and channels in (1, 3):
                 allowed.append("jpeg")
             enc = allowed[encs[i] % len(allowed)]
+            # the block size is a per-scale field
             scales.append(ds.make_scale(
-                keystyle % i, size, chunk, enc, block=blocks,
+                keystyle % i, size, chunk, enc,
+                block=blocks[i % 3:] + blocks[:i % 3],
                 sharding=ds.sharding_dict(bits[0], bits[1], bits[2],
                                           shard_enc, shard_enc)
                 if sharded else None))
@@ -336,6 +338,30 @@ class ChunkIO(RuleBasedStateMachine):
         self.compare(sc, cc, got, self.model[(si, cc)], who)
         if (si, cc) in self.reopened_keys:
             self.flags.add("read_after_reopen")
+        want = self.model[(si, cc)]
+        if sc["encoding"] == "compressed_segmentation" and want.size <= 4096:
+            # the stored file itself, decoded from the format description
+            # with the parameters the info announces for THIS scale
+            from vlib.refs import cseg_spec
+            try:
+                buf = self.pio.accessor.fetch_chunk(sc["key"], cc)
+                ref = cseg_spec.decode(
+                    bytes(buf), want.shape,
+                    sc["compressed_segmentation_block_size"], want.dtype)
+            except Exception as exc:
+                self.fail("%s: the stored compressed_segmentation file of "
+                          "chunk %s of %s cannot be decoded with the block "
+                          "size %s of its scale: %s %s" % (
+                              who, cc, sc["key"],
+                              sc["compressed_segmentation_block_size"],
+                              type(exc).__name__, exc))
+            if not np.array_equal(ref, want):
+                self.fail("%s: the stored compressed_segmentation file of "
+                          "chunk %s of %s decodes to other labels with the "
+                          "block size %s of its scale" % (
+                              who, cc, sc["key"],
+                              sc["compressed_segmentation_block_size"]))
+            self.flags.add("spec_decoded_file")
 
     @rule(seed=st.integers(0, 10 ** 6))
     @logged
